@@ -76,4 +76,11 @@ PROPS = {
         'decided': 'environment addressing only: create_name_lookup_ returns a path that selects, from ANY argument tree, exactly the value the parameter pattern binds the name to under consensus destructuring (first match, left before right, (@ n sub) captures), and fails only when the pattern does not mention the name; build_tree / compute_code_shape / compute_env_shape lay the helper names out left to right, each once, with the arguments on the right',
         'not_covered': ['desugaring of let / assign / lambda', 'inlining', 'renaming', 'macro expansion', 'finalize_env_', 'start_codegen / codegen as a whole', 'that compiled code computes what the source means'],
     },
+    'C09': {
+        'units': ['printer', 'casts'],
+        'e3_always': ['disassemble', 'modern_print'],
+        'e3': ['disassemble', 'modern_print'],
+        'decided': 'the disassembler\'s per-atom decisions: has_oversized_sign_extension is exactly "not canonical"; ir_for_atom (keywords off) prints an atom of 1-2 bytes as a decimal integer exactly when it is canonical, as hex otherwise, and every form carries the bytes unchanged; the assembler\'s decimal route re-encodes canonically (bigint_to_bytes_clvm), so the integer route round-trips (lemma, decimal print/parse assumed inverse)',
+        'not_covered': ['quoted-string escape/un-escape agreement: bounded stand-in only (E3 round trip on all 1-byte, 2304 2-byte and special 3-byte atoms, 3 positions, 3 versions); the Kani per-atom harness did not finish (HashMap + String in CBMC, 20 min) and was dropped', 'decimal and hex text conversion (assumed inverse pairs)', 'list / dot layout', 'modern printer and reader: bounded stand-in only', 'CLI path'],
+    },
 }
